@@ -218,7 +218,7 @@ func (nd *node) vcSync(rng *rand.Rand) {
 		}
 		msgs = append(msgs, m)
 	}
-	if rng.Intn(2) == 0 {
+	if rng.Intn(4) != 0 { // VCs normally submit all their validators' messages in one call
 		w.mon.vapiResult(nd.idx, "submit-sync-messages", nd.vapi.SubmitSyncCommitteeMessages(w.ctx, msgs))
 		return
 	}
